@@ -128,6 +128,11 @@ func c06Reference(items []c06Item, web bool) string {
 // c06RandomItems draws a multiset of 1..5 rules.
 func c06RandomItems(c *core.Ctx, web bool) []c06Item {
 	n := 1 + c.Rng.Intn(4)
+	if c.Rng.Intn(40) == 0 {
+		// Many matching rules at once (beyond small-slice special cases of any
+		// sorting, partitioning or de-duplication step).
+		n = 13 + c.Rng.Intn(40)
+	}
 	var items []c06Item
 	add := func(s *gen.Spec, source bool) {
 		items = append(items, c06Item{Spec: s, Source: source, Text: s.Render(c.Rng)})
@@ -388,7 +393,17 @@ func c06RunItems(c *core.Ctx, items []c06Item, web bool) {
 	c.Event("reference_"+want, 1)
 
 	nperm := 0
-	permute(len(items), func(p []int) {
+	each := func(f func(p []int)) { permute(len(items), f) }
+	if len(items) > 6 {
+		// Too many for all permutations: 24 PRNG-drawn ones.
+		each = func(f func(p []int)) {
+			for i := 0; i < 24; i++ {
+				f(c.Rng.Perm(len(items)))
+			}
+		}
+		c.Event("large_multisets", 1)
+	}
+	each(func(p []int) {
 		nperm++
 		perm := make([]c06Item, len(items))
 		for i, pi := range p {
@@ -469,7 +484,7 @@ func init() {
 	core.Register(&core.Prop{
 		ID:    "C06",
 		Level: "exploration",
-		Rule: "exhaustive part: every subset of up to 3 (thorough 4) shapes of a 45-shape catalogue (request-side: exception x important x {generic, $domain-specific, ~domain-only}, document-level exceptions, $dnsrewrite, $stealth, badfilter twins; referrer-side: document-level exceptions (also with two options on one rule) x important, plain rules, $stealth, badfilter twins) in ALL permutations; sampled part: multisets of 1..5 matching rules (plus badfilter twins) over {exception} x {important} x {generic, $domain-specific, ~domain-only} x {no doc modifier, urlblock, genericblock, elemhide, document} x {$dnsrewrite} x {$stealth}, request-side and referrer-side; " +
+		Rule: "exhaustive part: every subset of up to 3 (thorough 4) shapes of a 45-shape catalogue (request-side: exception x important x {generic, $domain-specific, ~domain-only}, document-level exceptions, $dnsrewrite, $stealth, badfilter twins; referrer-side: document-level exceptions (also with two options on one rule) x important, plain rules, $stealth, badfilter twins) in ALL permutations; sampled part: multisets of 1..5 (one in forty: 13..60, in 24 PRNG-drawn orders) matching rules (plus badfilter twins) over {exception} x {important} x {generic, $domain-specific, ~domain-only} x {no doc modifier, urlblock, genericblock, elemhide, document} x {$dnsrewrite} x {$stealth}, request-side and referrer-side; " +
 			"ALL permutations of every multiset through NewMatchingResult / GetDNSBasicRule, and every fifth permutation through Engine.MatchRequest, NetworkEngine.Match and DNSEngine.MatchRequest with a random split into 1..3 lists; " +
 			"oracle = precedence reference on specs (class in block/allow/none) plus invariants on the selected rule; non-trivial = every multiset (distinct by sorted rule texts and sides)",
 		Assumptions: []string{
